@@ -407,7 +407,9 @@ def random_params(net, rng):
         pv[f"lp.{l}.rho_max"] = rng.uniform(150, 200)
         pv[f"lp.{l}.rho_crit"] = rc
         pv[f"lp.{l}.v_free"] = rng.uniform(90, 130)
-        pv[f"lp.{l}.a"] = rng.uniform(1.2, 2.5)
+        # (a = 2 exactly now and then: the one common value for which the equilibrium speed is also defined
+        # for a negative density, so that states with negative entries are not all "not a number")
+        pv[f"lp.{l}.a"] = rng.uniform(1.2, 2.5) if rng.random() < 0.8 else 2.0
         pv[f"lp.{l}.turnrate"] = rng.uniform(0.2, 3.0)
         pv[f"lp.{l}.alpha"] = rng.uniform(0.0, 0.2)
     # turn rates: sometimes all equal (the default 1.0, or a common value), sometimes one leaving link of a
